@@ -139,8 +139,19 @@ func (c *Check) Note(rule, fn, construct, where, desc string) {
 }
 
 // Rule registers the text of a rule and its instance floor.
+// The floor passed is the number of instances confirmed by hand on the reference tree. What is
+// enforced is 60 % of it (at least 1): de-duplicating refactorings legitimately merge instances
+// (two copy-pasted arms become one helper), while a rule that lost its anchors — and would pass
+// vacuously — falls far below that.
 func (c *Check) Rule(id, text string, floor int) {
 	c.rules[id] = text
+	if floor > 0 {
+		f := floor * 6 / 10
+		if f < 1 {
+			f = 1
+		}
+		floor = f
+	}
 	c.floors[id] = floor
 }
 
